@@ -18,6 +18,7 @@ STATES = ('empty', 'warm', 'warm-by-family-member', 'warm-by-independent-key', '
 
 class Check(CheckBase):
     property_id = 'C18'
+    evaluations_counter = 'pairs'
     level = 'exploration'
     rule = ('a repository with snapshots by an owner, a same-family (shared) key and an independent key; for every cache state in '
             '{empty, warm, warmed by a family member, warmed by the independent key, shared with a second repository, stale because '
